@@ -131,3 +131,51 @@ def blameOk (k : Kind) (rs : List (Plugin × Response)) (p q subject : Str) : Bo
     sp.any fun it => subjectOf it = subject && sq.contains it
 
 end Nri.Ledger
+
+namespace Nri.Ledger
+open Nri.Api Nri.Result
+
+/-! ### The abstract ledger (C02)
+
+The simplest possible account of ownership: a set of owned `(container, item)` pairs. A
+response first releases what it marks for removal, then must find everything it sets free
+(and name nothing twice, and not update the container being created), then owns it. No reply
+lists, no view, no distinction between dropped and applied ignore-failure updates (all their
+sets count — a conservative reading: the abstract ledger accepts fewer chains than it could).
+`absRun … = some _` is C02's premise "no two plugins set the same item (unless released)". -/
+
+/-- everything a response sets, as `(container, item)` pairs -/
+def allSets (k : Kind) (r : Response) : List (Cid × Item) :=
+  (match k, r.adjust with
+   | .create id, some a => (setsAdj a).map fun it => (id, it)
+   | _, _ => []) ++
+  r.updates.flatMap fun u => (setsUpd u).map fun it => (u.containerId, it)
+
+/-- everything a response marks for removal -/
+def allRemoves (k : Kind) (r : Response) : List (Cid × Item) :=
+  match k, r.adjust with
+  | .create id, some a => (removesAdj a).map fun it => (id, it)
+  | _, _ => []
+
+def selfUpdates (k : Kind) (r : Response) : Bool :=
+  match k with
+  | .create id => r.updates.any fun u => u.containerId = id
+  | _ => false
+
+def absStep (k : Kind) (owned : List (Cid × Item)) (r : Response) : Option (List (Cid × Item)) :=
+  if selfUpdates k r then none
+  else
+    let sets := allSets k r
+    let owned1 := owned.filter fun x => !(allRemoves k r).contains x
+    if !decide sets.Nodup then none
+    else if sets.any fun x => owned1.contains x then none
+    else some (owned1 ++ sets)
+
+def absRun (k : Kind) : List (Cid × Item) → List (Plugin × Response) → Option (List (Cid × Item))
+  | owned, [] => some owned
+  | owned, (_, r) :: rest =>
+    match absStep k owned r with
+    | some owned' => absRun k owned' rest
+    | none => none
+
+end Nri.Ledger
